@@ -185,6 +185,22 @@ func wrapAfterUse(a *acc, src []int) {
 				}
 				runFlavours(a, s, fl)
 			}
+			// ... and then the USED combinator is read again: what w took from c counts against c
+			for i2, wrapper := range stages[:wrapOuterStages] {
+				if stageKind(wrapper.name) != stageKind(used.name) && (i1+i2+j)%2 == 1 {
+					continue
+				}
+				ref2 := wrapper.ref(remaining)
+				for _, m := range []int{0, 1, len(ref2.out) + 1} {
+					if a.failed {
+						return
+					}
+					if m == 1 && len(ref2.out) == 0 {
+						continue
+					}
+					readInnerAgain(a, src, used, wrapper, ref1, ref2, j, m, (i1+i2+j+m)%2 == 0)
+				}
+			}
 			// ... or handed to a reducer
 			if a.failed {
 				return
@@ -307,4 +323,66 @@ func runPoll(a *acc, sc pollScenario) {
 	}
 	a.endRe += int(min(sc.polls, 1<<30))
 	fmt.Fprintf(os.Stderr, "post-end polling scenario finished: %s\n", sc.name)
+}
+
+// readInnerAgain (iterator flavour only: package stream makes the wrapper the sole user of what it
+// is given, package iterator has no such rule and handles are commonly kept): c is used for j
+// requests, wrapped in w, w is asked m times, then c ITSELF is drained. Everything w pulled went
+// through c, so c must now yield exactly its reference output minus what it has handed out so far
+// (directly and through w), and in the end the shared source must be where c's reference leaves it.
+func readInnerAgain(a *acc, src []int, used, wrapper stage, ref1, ref2 res[int], j, m int, librarySource bool) {
+	a.evals++
+	a.count("triples by operation", "wrap-after-use", 1)
+	a.count("wrap after use", "inner combinator read again after the wrapper was used", 1)
+	l1, n := len(ref1.out), len(src)
+	taken := min(j, l1)
+	remaining := ref1.out[taken:]
+	throughW := min(ref2.need[min(m, len(ref2.out)+1)], len(remaining)) // items of c handed to w
+	wantRest := remaining[throughW:]
+	wantLost := min(ref1.need[l1+1], n) // after c has been drained to its end
+	kind, msg := "inner-reread", ""
+	a.arm(n + l1)
+	pan := vkit.Try(func() {
+		var source iterator.Iterator[int]
+		var lostNow func() int
+		if librarySource {
+			it, rest := iterSrcKinds[0].mk(src)
+			source, lostNow = it, func() int { return n - len(rest()) }
+		} else {
+			p := newIterProbe(a, src)
+			source, lostNow = p, func() int { return p.Pos() }
+		}
+		c := used.it(source)
+		for i := 0; i < j; i++ {
+			c.Next()
+		}
+		w := wrapper.it(c)
+		for i := 1; i <= m; i++ {
+			x, ok := w.Next()
+			if i <= len(ref2.out) && (!ok || x != ref2.out[i-1]) {
+				msg = fmt.Sprintf("the wrapper's request %d returned (%d, %v), reference %d", i, x, ok, ref2.out[i-1])
+				return
+			}
+			if i > len(ref2.out) && ok {
+				msg = fmt.Sprintf("the wrapper's request %d returned %d after its reference end", i, x)
+				return
+			}
+		}
+		got := drainIter(c, l1+2)
+		if !slices.Equal(got, wantRest) {
+			msg = fmt.Sprintf("read again afterwards, %s yields %v; it has %d outputs %v, handed out %d directly and %d through the wrapper, so %v remain",
+				used.name, got, l1, ref1.out, taken, throughW, wantRest)
+			return
+		}
+		if lost := lostNow(); lost != wantLost {
+			msg = fmt.Sprintf("after everything was drained the source has lost %d item(s), the reference of %s implies %d", lost, used.name, wantLost)
+		}
+	})
+	if pan != nil {
+		kind, msg = panicKind(pan), panicMsg(pan)
+	}
+	if msg != "" {
+		a.fail(kind, "iterator", "wrap-after-use", fmt.Sprintf("iterator: c = %s over %v used for %d request(s), w = %s(c) asked %d time(s), then c read again: %s", used.name, src, j, wrapper.name, m, msg),
+			map[string]any{"source": src, "used": used.name, "wrapper": wrapper.name, "requests_of_c_before": j, "requests_of_w": m})
+	}
 }
